@@ -6,7 +6,9 @@ rounds = {"r": "round 1 (single idioms)", "s": "round 2 (combined idioms, helper
           "u": "round 4 (same brief, fresh agents, on the repaired tree)",
           "v": "round 5 (same brief, fresh agents, novelty guard in place)",
           "w": "round 6 (helpers with guard clauses, reorganised early returns, in-place <-> out-of-place on locals; after the obligations of DESIGN section 29)",
-          "x": "round 7 (as round 6 plus module / class constants, explicit dtypes, wrapper + worker splits; after the obligations of DESIGN section 31)"}
+          "x": "round 7 (as round 6 plus module / class constants, explicit dtypes, wrapper + worker splits; after the obligations of DESIGN section 31)",
+          "y": "round 8 (plumbing around the computation: forwarding, defaults, error paths, result assembly; after the obligations of DESIGN section 33)",
+          "z": "round 9 (guard clauses and early returns, string helpers, context managers, serialisation, save / load / reset; after the obligations of DESIGN section 35)"}
 out = ["# Behaviour-preserving variants (`seeded/refactorings/`)", "",
        "Each directory holds `patch.diff` (against `/repo` HEAD) and `meta.json` (what the sub-agent did and how it verified",
        "equivalence: unchanged test result, import check, old-versus-new harness).  `python3 tools/ref_check.py [filter]` applies every",
